@@ -284,8 +284,12 @@ fn write_json_scenario(dir: &str, id: &str, base: &str, json: &str, cur_units: &
     let upath = format!("{}/{}.currency.units", dir, id);
     std::fs::write(&upath, cur_units).unwrap();
     // the model reads the JSON in line form; what the typed deserializer rejects is `jsonerror`
-    let typed: Result<Vec<DefEntry>, _> = serde_json::from_str(json);
-    let jd = if typed.is_ok() { crate::loaddump::jsondefs_text(json) } else { "jsonerror\n".to_string() };
+    // (on a thread with a very large stack: the typed deserializer parses every expression text recursively)
+    let js = json.to_string();
+    let jd = std::thread::Builder::new().stack_size(2 << 30).spawn(move || {
+        let typed: Result<Vec<DefEntry>, _> = serde_json::from_str(&js);
+        if typed.is_ok() { crate::loaddump::jsondefs_text(&js) } else { "jsonerror\n".to_string() }
+    }).unwrap().join().unwrap_or_else(|_| "jsonerror\n".to_string());
     std::fs::write(format!("{}.jdefs", jpath), jd).unwrap();
     std::fs::write(format!("{}/{}.tdefs", dir, id), format!("text {}\ncurrency {} {}\n", hex(&bpath), hex(&jpath), hex(&upath))).unwrap();
 }
@@ -587,6 +591,36 @@ pub fn run(o: &Opts) -> i32 {
                 write_text_scenario(&dir, &format!("edge{}", i), t);
                 names.push((format!("edge{}", i), format!("edge text {:?}", t)));
             }
+            // exponents at the limits of i64 / i32 in quantities, prefixes and units; machine-float zeros in substances
+            let deep = |n: usize| -> Vec<(String, String)> { vec![
+                (format!("minus-run-{}", n), format!("m !\nfoo {}1 m\nbar 2 foo\n", "-".repeat(n))),
+                (format!("sum-{}", n), format!("m !\nfoo {}1 m\nbar 2 foo\n", "1 m + ".repeat(n))),
+                (format!("parens-{}", n), format!("m !\nfoo {}1 m{}\nbar 2 foo\n", "(".repeat(n), ")".repeat(n))),
+                (format!("blanks-{}", n), format!("m !\nfoo{}1 m\nbar 2 foo\n", " ".repeat(n))),
+                (format!("continuations-{}", n), format!("m !\nfoo 1 {}m\nbar 2 foo\n", "\\\n".repeat(n))),
+                (format!("pow-chain-{}", n), format!("m !\nfoo 2{} m\nbar 2 foo\n", "^1".repeat(n))),
+                (format!("juxt-{}", n), format!("m !\nfoo {}\nbar 2 foo\n", "m ".repeat(n))),
+                (format!("frac-chain-{}", n), format!("m !\nfoo 1{} m\nbar 2 foo\n", " / 2".repeat(n))),
+            ] };
+            let mut more: Vec<(String, String)> = vec![
+                ("quantity-div-limit".into(), "m !\nhuge ? m^9223372036854775807 / m^-9223372036854775807\nok ? m^2\n".into()),
+                ("quantity-mul-limit".into(), "m !\nhuge ? m^9223372036854775807 m^9223372036854775807\nhuge2 ? m^9223372036854775807 * m\nok ? m^2\n".into()),
+                ("quantity-pow-limit".into(), "m !\nhuge ? (m^4611686018427387904)^2\nhuge2 ? (m^3037000500)^3037000500\nneg ? -(m^-9223372036854775807 / m)\nok ? m^2\n".into()),
+                ("quantity-neg-limit".into(), "m !\nlow ? m^-9223372036854775808\nlow2 ? 1 / m^9223372036854775807 / m\nlow3 ? -(m^9223372036854775807) / m / m\nok ? m^2\n".into()),
+                ("unit-exp-limit".into(), "m !\nbig (((((((m^49)^73)^127)^337)^92737)^649657))\nbigger big m\nbig2 big big\nsmall 1 / big / m\nok 2 m\n".into()),
+                ("float-zero-input".into(), "m !\nkg !\nfoam {\n    density mass 1 kg / volume 0^(1|2) m^3\n}\nok 2 m\n".into()),
+                ("float-zero-output".into(), "m !\nkg !\nfoam {\n    density mass 0^(1|2) kg / volume 1 m^3\n    weight const 0^(1|3) kg\n}\nok 2 m\n".into()),
+                ("float-nan-property".into(), "m !\nkg !\nfoam {\n    density mass ln(-1) kg / volume 1 m^3\n    fluff mass 1 kg / volume ln(0) m^3\n}\nok 2 m\n".into()),
+            ];
+            for (i, e) in ["2^-2147483648", "2^2147483648", "1^-2147483648", "0^-2147483648", "1^2147483647", "0^2147483647", "(1|2)^-2147483648", "10^-2147483649", "2^(-2147483648)", "2^-99999999999999999999", "1e-2147483648", "1e2147483648", "-2^-2147483648"].iter().enumerate() {
+                more.push((format!("prefix-exp-{}", i), format!("m !\nfoo- {}\nfoom2 3 foom\nok 2 m\n", e)));
+            }
+            for n in [150usize, 400, 3000, 20000] { more.extend(deep(n)); }
+            if o.thorough { more.extend(deep(100_000)); }
+            for (id, t) in &more {
+                write_text_scenario(&dir, id, t);
+                names.push((id.clone(), format!("edge text {:?}", t.chars().take(70).collect::<String>())));
+            }
             // ---- currency JSON
             let entries: Vec<serde_json::Value> = serde_json::from_str::<serde_json::Value>(&json).ok().and_then(|v| v.as_array().cloned()).unwrap_or_default();
             let mut jn = 0;
@@ -603,6 +637,12 @@ pub fn run(o: &Opts) -> i32 {
                            "[{\"name\":\"x\",\"doc\":null,\"category\":null,\"type\":\"substance\",\"symbol\":null,\"properties\":[{\"name\":\"p\",\"doc\":null,\"inputName\":\"a\",\"input\":\"1 kg\",\"outputName\":\"b\",\"output\":\"0 kg\"}]}]",
                            "[{\"name\":\"x\",\"doc\":null,\"category\":null,\"type\":\"quantity\",\"expr\":\"m^99999999999999999999\"}]", "[{\"name\":\"x\",\"doc\":null,\"category\":null,\"type\":\"baseUnit\",\"longName\":7}]"].iter().enumerate() {
                 addj(format!("jsonedge{}", i), format!("currency JSON {}", j), j.to_string(), &mut names);
+            }
+            for n in [150usize, 2000, 20000] {
+                for (k, e) in [format!("{}1{}", "(".repeat(n), ")".repeat(n)), format!("{}1", "-".repeat(n)), format!("{}1", "1 + ".repeat(n))].iter().enumerate() {
+                    let j = serde_json::json!([{"name": "x", "doc": null, "category": null, "type": "unit", "expr": e}]).to_string();
+                    addj(format!("jsondeep{}-{}", n, k), format!("currency JSON with an expression nested {} deep", n), j, &mut names);
+                }
             }
             let njm = if o.thorough { 40 } else { 6 };
             for i in 0..njm {
